@@ -149,6 +149,151 @@ theorem C15_moment_expanded (s : Nat → K) (x : Nat → V3 K) (xi : V3 K) (l : 
     simp only [madd, msmul, outer, V3.add, V3.sub, smul, M3.mk.injEq, V3.mk.injEq]
     refine ⟨⟨?_, ?_, ?_⟩, ⟨?_, ?_, ?_⟩, ⟨?_, ?_, ?_⟩⟩ <;> ring
 
+/-! ### the weights of a vertex matter only up to a common factor (graded meshes, round-4 class J) -/
+
+/-- the same input with the weights of every row `i` multiplied by `c i` (volume weighting on a graded mesh: the
+    neighbour volumes of a vertex of the fine region are `(h_fine / h_coarse)³` times those of a vertex of the coarse
+    region) -/
+def scaleW (I : Inp K) (c : Nat → K) : Inp K := { I with w := fun i j => c i * I.w i j }
+
+theorem sq_scaleW (I : Inp K) (c : Nat → K) (i j : Nat) : Gradient.sq (scaleW I c) i j = c i * Gradient.sq I i j := by
+  simp only [Gradient.sq, scaleW, dvec, mul_div_assoc]
+
+theorem sumM_msmul (k : K) (s : Nat → K) (d : Nat → V3 K) (l : List Nat) :
+    sumM (l.map fun j => msmul (k * s j) (outer (d j) (d j)))
+      = msmul k (sumM (l.map fun j => msmul (s j) (outer (d j) (d j)))) := by
+  induction l with
+  | nil => simp [msmul, mzero, vzero, smul]
+  | cons h t ih =>
+    simp only [List.map_cons, sumM_cons, ih]
+    generalize sumM (t.map fun j => msmul (s j) (outer (d j) (d j))) = T
+    obtain ⟨⟨t00, t01, t02⟩, ⟨t10, t11, t12⟩, ⟨t20, t21, t22⟩⟩ := T
+    generalize d h = dh
+    obtain ⟨d0, d1, d2⟩ := dh
+    simp only [madd, msmul, outer, V3.add, smul, M3.mk.injEq, V3.mk.injEq]
+    refine ⟨⟨?_, ?_, ?_⟩, ⟨?_, ?_, ?_⟩, ⟨?_, ?_, ?_⟩⟩ <;> ring
+
+theorem momentAt_scaleW (I : Inp K) (c : Nat → K) (i : Nat) :
+    momentAt (scaleW I c) i = msmul (c i) (momentAt I i) := by
+  have h := sumM_msmul (c i) (Gradient.sq I i) (dvec I i) (I.nbrs i)
+  simp only [momentAt, sq_scaleW]
+  exact h
+
+theorem det3_msmul (k : K) (M : M3 K) : det3 (msmul k M) = k ^ 3 * det3 M := by
+  obtain ⟨⟨m00, m01, m02⟩, ⟨m10, m11, m12⟩, ⟨m20, m21, m22⟩⟩ := M
+  simp only [det3, V3.det, msmul, smul]
+  ring
+
+theorem scale_div (k N D : K) (hk : k ≠ 0) : k ^ 2 * N / (k ^ 3 * D) = k⁻¹ * (N / D) := by
+  by_cases hD : D = 0
+  · simp [hD]
+  · field_simp
+
+/-- `inv (k M) = k⁻¹ inv M` for the adjugate / determinant inverse, `k ≠ 0` (also when `M` is singular: both sides are
+    the totalised `adj / 0 = 0`) -/
+theorem inv3_msmul (k : K) (hk : k ≠ 0) (M : M3 K) : inv3 (msmul k M) = msmul k⁻¹ (inv3 M) := by
+  have hd := det3_msmul k M
+  obtain ⟨⟨m00, m01, m02⟩, ⟨m10, m11, m12⟩, ⟨m20, m21, m22⟩⟩ := M
+  generalize hD : det3 (⟨⟨m00, m01, m02⟩, ⟨m10, m11, m12⟩, ⟨m20, m21, m22⟩⟩ : M3 K) = D at hd
+  have e : ∀ N : K, k ^ 2 * N / (k ^ 3 * D) = k⁻¹ * (N / D) := fun N => scale_div k N D hk
+  unfold inv3
+  rw [hd, hD]
+  simp only [adj3, vdiv, msmul, smul, cross, M3.mk.injEq, V3.mk.injEq]
+  refine ⟨⟨?_, ?_, ?_⟩, ⟨?_, ?_, ?_⟩, ⟨?_, ?_, ?_⟩⟩ <;> rw [← e] <;> congr 1 <;> ring
+
+theorem offRow_scaleW (I : Inp K) (c : Nat → K) (hc : ∀ i, c i ≠ 0) (i : Nat) :
+    offRow (scaleW I c) i = offRow I i := by
+  unfold offRow
+  have hm : (scaleW I c).moment = I.moment := rfl
+  have hn : (scaleW I c).nbrs = I.nbrs := rfl
+  have hdv : ∀ j, dvec (scaleW I c) i j = dvec I i j := fun _ => rfl
+  rw [hm, hn]
+  by_cases hmo : I.moment = true
+  · simp only [hmo, if_true, momentAt_scaleW, inv3_msmul (c i) (hc i), sq_scaleW, hdv]
+    apply List.map_congr_left
+    intro j _
+    generalize inv3 (momentAt I i) = B
+    generalize Gradient.sq I i j = s
+    generalize dvec I i j = d
+    obtain ⟨⟨b00, b01, b02⟩, ⟨b10, b11, b12⟩, ⟨b20, b21, b22⟩⟩ := B
+    obtain ⟨d0, d1, d2⟩ := d
+    have := hc i
+    simp only [Prod.mk.injEq, true_and]
+    apply v3_ext <;> simp only [mulVec, msmul, smul, dot] <;> field_simp
+  · simp only [hmo, Bool.false_eq_true, if_false, hdv]
+    have hsw : sumW (scaleW I c) i = c i * sumW I i := by
+      unfold sumW
+      rw [hn]
+      show sumR ((I.nbrs i).map fun j => c i * I.w i j) = c i * sumR ((I.nbrs i).map (I.w i))
+      induction I.nbrs i with
+      | nil => simp
+      | cons h t ih => simp only [List.map_cons, sumR_cons, ih]; ring
+    rw [hsw]
+    apply List.map_congr_left
+    intro j _
+    have hw : (scaleW I c).w i j = c i * I.w i j := rfl
+    rw [hw]
+    have := hc i
+    congr 2
+    by_cases hs : sumW I i = 0
+    · simp [hs]
+    · field_simp
+
+/-- **C15, the weights of a vertex matter only up to a common non-zero factor.**  Multiplying all weights `w_ij` of row
+    `i` by `c_i ≠ 0` changes neither any operator row nor what the convenience functions return (every variant), while the
+    determinant of the moment matrix is multiplied by `c_i³`.  With volume weighting `c_i` is of the order of the local
+    cell volume `h_i³`, so on a graded mesh `det M_i ∼ h_i⁹` varies by `ratio⁹` between vertices whose operator rows are
+    equally well determined: the SIZE of `det M_i` relative to other vertices says nothing about whether a neighbourhood
+    spans space (seeded change C15-8 zeroed the rows with `|det M_i| < 1e-10 · max_k |det M_k|`, i.e. every vertex of a
+    region refined more than 13 : 1).  The exactness theorem needs `det M_i ≠ 0` only, which is invariant. -/
+theorem C15_row_weight_scale (I : Inp K) (c : Nat → K) (hc : ∀ i, c i ≠ 0) (data : Nat → K) (i : Nat) :
+    opRow (scaleW I c) i = opRow I i
+      ∧ spatialGradients (scaleW I c) data i = spatialGradients I data i
+      ∧ det3 (momentAt (scaleW I c) i) = c i ^ 3 * det3 (momentAt I i)
+      ∧ (det3 (momentAt (scaleW I c) i) ≠ 0 ↔ det3 (momentAt I i) ≠ 0) := by
+  have hrow : ∀ i', opRow (scaleW I c) i' = opRow I i' := by
+    intro i'; unfold opRow; rw [offRow_scaleW I c hc]
+  have hg : ∀ k, gradAdj (scaleW I c) k = gradAdj I k := by
+    intro k; unfold gradAdj; simp only [hrow]; rfl
+  have hdet : det3 (momentAt (scaleW I c) i) = c i ^ 3 * det3 (momentAt I i) := by
+    rw [momentAt_scaleW, det3_msmul]
+  refine ⟨hrow i, by unfold spatialGradients; simp only [hg], hdet, ?_⟩
+  rw [hdet]
+  simp [hc i]
+
+/-! ### integer-typed fields (round-4 class F): what an output array of the input's dtype loses -/
+
+/-- numpy's conversion of a float to an integer dtype on assignment: truncation toward zero -/
+def truncQ (q : ℚ) : ℚ := ((Int.tdiv q.num q.den : ℤ) : ℚ)
+def truncV (v : V3 ℚ) : V3 ℚ := ⟨truncQ v.x, truncQ v.y, truncQ v.z⟩
+
+theorem truncQ_int (n : ℤ) : truncQ (n : ℚ) = n := by
+  simp [truncQ]
+
+/-- **C15, integer-valued affine fields.**  For an affine field with integer slope `a`, given as integers (`f_j = a·x_j + b`
+    evaluated in ℤ on integer-valued positions), the moment-corrected gradient is exactly the integer vector `a`: over ℚ
+    an output array of the INPUT's integer dtype (truncation on assignment, seeded change C15-7) loses nothing on such a
+    field.  Hence the exact model cannot see that change on affine fields; what reveals it is binary64 rounding
+    (`15.999999999999998 → 15`: oracle, integer-typed arrays) or any non-affine integer field
+    (`example` below: the truncated result differs from the explicit matrices applied by hand). -/
+theorem C15_integer_affine_field (I : Inp ℚ) (hm : I.moment = true) (i : Nat) (hi : i < I.n)
+    (hdet : IsUnit (toMatrix (momentAt I i)).det) (P : Nat → V3 ℤ)
+    (hP : ∀ j, I.pos j = ⟨((P j).x : ℚ), ((P j).y : ℚ), ((P j).z : ℚ)⟩) (a : V3 ℤ) (b : ℤ) :
+    spatialGradients I (fun j => ((a.x * (P j).x + a.y * (P j).y + a.z * (P j).z + b : ℤ) : ℚ)) i
+        = ⟨(a.x : ℚ), (a.y : ℚ), (a.z : ℚ)⟩
+      ∧ truncV (spatialGradients I (fun j => ((a.x * (P j).x + a.y * (P j).y + a.z * (P j).z + b : ℤ) : ℚ)) i)
+        = spatialGradients I (fun j => ((a.x * (P j).x + a.y * (P j).y + a.z * (P j).z + b : ℤ) : ℚ)) i := by
+  have hf : (fun j => ((a.x * (P j).x + a.y * (P j).y + a.z * (P j).z + b : ℤ) : ℚ))
+      = fun j => dot (⟨(a.x : ℚ), (a.y : ℚ), (a.z : ℚ)⟩ : V3 ℚ) (I.pos j) + (b : ℚ) := by
+    funext j
+    rw [hP j]
+    simp only [dot]
+    push_cast
+    ring
+  have h := C15_affine_exact I hm i hi hdet ⟨(a.x : ℚ), (a.y : ℚ), (a.z : ℚ)⟩ (b : ℚ)
+  rw [hf, h]
+  exact ⟨rfl, by simp only [truncV, truncQ_int]⟩
+
 /-! ### non-vacuity: a boundary vertex (corner) with three neighbours and unequal weights -/
 
 /-- vertex 0 at the origin, neighbours at `(1,0,0)`, `(0,2,0)`, `(1,1,3)`; weights 1, 2, 5 -/
@@ -178,6 +323,21 @@ example : opRow (translate (I0 true) ⟨431250, 3912500, 128⟩) 0 = opRow (I0 t
 /-- the expansion on concrete data (both sides are the same non-zero matrix) -/
 example : sumM ([1, 2, 3].map fun j => msmul ((I0 true).w 0 j) (outer (V3.sub ((I0 true).pos j) ⟨5, 7, 9⟩) (V3.sub ((I0 true).pos j) ⟨5, 7, 9⟩)))
     ≠ (mzero : M3 ℚ) := by
+  decide +kernel
+
+/-- row-wise rescaling of the weights on the corner example: vertex 0's weights divided by 10⁹ (a vertex of a region refined
+    1000 : 1 under volume weighting), vertex 3's multiplied by 7: same rows, determinant of vertex 0 smaller by 10²⁷ -/
+example : opRow (scaleW (I0 true) fun i => if i = 0 then 1 / 1000000000 else 7) 0 = opRow (I0 true) 0
+    ∧ opRow (scaleW (I0 false) fun i => if i = 0 then 1 / 1000000000 else 7) 3 = opRow (I0 false) 3
+    ∧ det3 (momentAt (scaleW (I0 true) fun i => if i = 0 then 1 / 1000000000 else 7) 0) * 1000000000 ^ 3
+        = det3 (momentAt (I0 true) 0) := by
+  decide +kernel
+
+/-- a NON-affine integer (even Boolean) field, the indicator of vertex 2, on the corner example: the gradient (= the explicit
+    matrices applied by hand) is `(0, 1/2, -1/6)`; an output array of the input's integer dtype holds `(0, 0, 0)` -/
+example : spatialGradients (I0 true) (fun j => if j = 2 then 1 else 0) 0 = ⟨0, 1 / 2, -1 / 6⟩
+    ∧ applyRow (opRow (I0 true) 0) (fun j => if j = 2 then 1 else 0) = ⟨0, 1 / 2, -1 / 6⟩
+    ∧ truncV ⟨0, 1 / 2, -1 / 6⟩ = ⟨0, 0, 0⟩ := by
   decide +kernel
 
 end Femio.C15
